@@ -61,3 +61,24 @@ func H_Amm_BestPoolAmongSeveral() {
 	vrf.Observe("bestPool", p.PoolId)
 	vrf.ObserveWorld()
 }
+
+// The amm power function over a table of concrete bases and exponents that takes every branch of the approximation
+// code (integer power, square root, Maclaurin series, exp/ln method incl. the base == 2 and base == 1 shortcuts,
+// large and tiny bases; exact powers of two >= 4 are left out: the unchanged code cannot compute their logarithm and panics): run twice in the product, and no package-level constant of the module may have changed
+// afterwards (a node that has evaluated one of these must compute the next swap like a node that has not).
+//vrf:product
+//vrf:witnesses 0
+//vrf:bound 12 concrete (base, exponent) pairs covering the branches of Pow / powerApproximation; the check is on package-level state, not on the numeric results
+func H_Amm_PowLeavesNoTrace() {
+	tab := [][2]string{{"2", "0.3"}, {"2", "0.5"}, {"2", "1.7"}, {"1", "0.3"}, {"1.5", "0.25"}, {"0.75", "0.6"}, {"3", "0.3"}, {"0.3", "0.7"},
+		{"10", "0.25"}, {"0.0001", "0.5"}, {"1000", "2.23"}, {"1.000001", "0.999"}}
+	for i, r := range tab {
+		b, e := sdkmath.LegacyMustNewDecFromStr(r[0]), sdkmath.LegacyMustNewDecFromStr(r[1])
+		vrf.Observe("pow"+string(rune('a'+i)), ammtypes.Pow(b, e))
+	}
+	// and the same table again: every result must be what it was the first time
+	for i, r := range tab {
+		b, e := sdkmath.LegacyMustNewDecFromStr(r[0]), sdkmath.LegacyMustNewDecFromStr(r[1])
+		vrf.Observe("again"+string(rune('a'+i)), ammtypes.Pow(b, e))
+	}
+}
